@@ -326,20 +326,37 @@ def _wrap(owner, name, post, label):
     INSTALLED[label] = 'installed (%d extra bindings re-bound)' % n
 
 
+def _mod(name):
+    import importlib
+    try:
+        return importlib.import_module(name)
+    except Exception:
+        return None
+
+
 def install_all():
-    import matchingproblems.solver.model as model_mod
-    import matchingproblems.solver.fileIO as fileio
-    import matchingproblems.solver.brute_force_solver as bf
-    import matchingproblems.generator.generator_shared as gs
-    import matchingproblems.generator.generator_spa as gspa
-    import matchingproblems.generator.generator_ha_sm_hr as ghr  # noqa
-    _wrap(model_mod.Model, 'check_stability', check_stability_post, 'Model.check_stability')
-    _wrap(gs, 'create_linear_distribution', linear_distribution_post, 'create_linear_distribution')
-    _wrap(gs, 'create_string_pref', string_pref_post, 'create_string_pref')
-    _wrap(gs, 'create_quotas', create_quotas_post, 'create_quotas')
-    _wrap(gspa.Generator_spa, 'create_project_lecturers', project_lecturers_post, 'create_project_lecturers')
-    _wrap(fileio, '_get_simple_pref_list_and_ranks', simple_pref_post, '_get_simple_pref_list_and_ranks')
-    _wrap(bf.Brute_force_solver, 'moregen', moregen_post, 'moregen')
-    _wrap(bf.Brute_force_solver, 'moregre', moregre_post, 'moregre')
-    _wrap(bf.Brute_force_solver, 'is_valid', is_valid_post, 'is_valid')
+    """Install every contract whose target still exists; a missing module, class or
+    function is recorded as 'absent' (auxiliary monitors never make a check fail)."""
+    model_mod = _mod('matchingproblems.solver.model')
+    fileio = _mod('matchingproblems.solver.fileIO')
+    bf = _mod('matchingproblems.solver.brute_force_solver')
+    gs = _mod('matchingproblems.generator.generator_shared')
+    gspa = _mod('matchingproblems.generator.generator_spa')
+    _mod('matchingproblems.generator.generator_ha_sm_hr')
+    targets = [
+        (getattr(model_mod, 'Model', None), 'check_stability', check_stability_post, 'Model.check_stability'),
+        (gs, 'create_linear_distribution', linear_distribution_post, 'create_linear_distribution'),
+        (gs, 'create_string_pref', string_pref_post, 'create_string_pref'),
+        (gs, 'create_quotas', create_quotas_post, 'create_quotas'),
+        (getattr(gspa, 'Generator_spa', None), 'create_project_lecturers', project_lecturers_post, 'create_project_lecturers'),
+        (fileio, '_get_simple_pref_list_and_ranks', simple_pref_post, '_get_simple_pref_list_and_ranks'),
+        (getattr(bf, 'Brute_force_solver', None), 'moregen', moregen_post, 'moregen'),
+        (getattr(bf, 'Brute_force_solver', None), 'moregre', moregre_post, 'moregre'),
+        (getattr(bf, 'Brute_force_solver', None), 'is_valid', is_valid_post, 'is_valid'),
+    ]
+    for owner, name, post, label in targets:
+        if owner is None:
+            INSTALLED.setdefault(label, 'absent')
+        else:
+            _wrap(owner, name, post, label)
     return dict(INSTALLED)
